@@ -98,17 +98,35 @@ func genTraceProgram(r *Rand) traceParams {
 	// callForm emits the statements that call fn(i+1) inside indent and returns the line of the frame
 	callForm := func(ind string, next int, arg string) int {
 		callee := fmt.Sprintf("fn%d(%s)", next, arg)
+		// the statement that carries the call / await may span several lines: the frame
+		// reports the line on which the call site starts
+		multi := r.Chance(0.4)
+		stmt := func(prefix, suffix string) int {
+			if !multi {
+				return emit(ind + prefix + callee + suffix)
+			}
+			first := emit(fmt.Sprintf("%s%sfn%d(", ind, prefix, next))
+			emit(ind + "  " + arg)
+			emit(ind + ")" + suffix)
+			return first
+		}
+		tag := func(k string) {
+			if multi {
+				k += "_multiline"
+			}
+			kinds = append(kinds, k)
+		}
 		if !async[next] {
-			kinds = append(kinds, "call")
-			return emit(ind + "r := " + callee)
+			tag("call")
+			return stmt("r := ", "")
 		}
 		switch r.Intn(5) {
 		case 0:
-			kinds = append(kinds, "await")
-			return emit(ind + "r := await " + callee)
+			tag("await")
+			return stmt("r := await ", "")
 		case 1:
-			kinds = append(kinds, "await_in_expr")
-			return emit(ind + "r := 1 + (await " + callee + ") - 1")
+			tag("await_in_expr")
+			return stmt("r := 1 + (await ", ") - 1")
 		case 2:
 			kinds = append(kinds, "await_after_busy")
 			emit(ind + "p := " + callee)
